@@ -64,6 +64,8 @@ def make_replay(prop, f, tier):
     witness, note = (None, None)
     if f.get("kani_playback"):
         witness, note = f["kani_playback"], "kani concrete playback"
+    elif f.get("found_witness") is not None:
+        witness, note = f["found_witness"], "bounded sweep of the real code (unit undecided on this tree)"
     else:
         witness, note = search(f["unit"], f["tag"], tier)
     doc = {
